@@ -523,7 +523,7 @@ def case_flow(ctx, c):
 
 
 # ---------------------------------------------------------------- statistical family
-def gen_design(g, tier):
+def gen_design(g, tier, c):
     """Pure function of the case's generator: trial design of one statistical case."""
     n = int(g.choice([1, 2, 3, 5, 12]))
     p = int(g.integers(2, 12))
@@ -534,7 +534,7 @@ def gen_design(g, tier):
         r = int(g.integers(1, 5)); nrep = numpy.full(nenv, r, dtype="int64"); scalar = True
     else:
         nrep = g.integers(1, 5, nenv).astype("int64"); scalar = False
-    cls = ["env only", "rep only", "err only", "env+rep", "mixed", "mixed", "via set_h2", "via set_H2"][int(g.integers(8))]
+    cls = ["env only", "rep only", "err only", "env+rep", "mixed", "mixed", "via set_h2", "via set_H2"][c % 8]     # every class in every run
     pool = [1e-4, 0.04, 1.0, 2.5, 16.0, 400.0]
 
     def draw(allow_zero):
@@ -640,7 +640,7 @@ def min_detectable_ratio(df, level, power=0.99):
 
 def case_stat(ctx, c, level):
     g = ctx.rng("design", c)
-    D = gen_design(g, ctx.tier)
+    D = gen_design(g, ctx.tier, c)
     rkind = ["Generator", "Generator", "RandomState", "global"][int(g.integers(4))]
     coords = [c, "stat"]
     n, nt = D["n"], D["nt"]
@@ -726,7 +726,7 @@ QUICK_STAT, THOROUGH_STAT = 48, 400
 
 def plan(ctx):
     total = QUICK_STAT if ctx.tier == "quick" else THOROUGH_STAT
-    ntot = sum(ntests_of(gen_design(ctx.rng("design", c), ctx.tier)) for c in range(total))
+    ntot = sum(ntests_of(gen_design(ctx.rng("design", c), ctx.tier, c)) for c in range(total))
     return ST.ALPHA_FAMILY / max(1, ntot), ntot
 
 
